@@ -276,19 +276,24 @@ func (d *FeeGrid) Eval(x *Exec, root *Node, gc GridCase) GridResult {
 	if got := balOf(after, owner); got.Cmp(wantOwner) != 0 {
 		vs = append(vs, Viol("owner-debit", fmt.Sprintf("owner has %s, expected %s (charged %d = %d x %d)", got, wantOwner, T, pn, N), where))
 	}
-	// N TransferX notifications with the container-fee details
+	// the payments are Balance transfers of the per-node fee out of the owner's account (announced as C01 demands);
+	// how a zero fee is handled, and the details bytes, are not part of this statement
 	cntX := 0
 	for _, nf := range obs.Notifs {
 		if nf.Contract == "balance" && nf.Name == "TransferX" {
 			cntX++
-			if len(nf.Args) != 4 || !Same(nf.Args[0], NX(owner.BytesBE())) || !Same(nf.Args[2], NI(pn)) || !Same(nf.Args[3], NX(append([]byte{0x10}, cid...))) {
-				vs = append(vs, Viol("fee-notification", fmt.Sprintf("TransferX %v; expected from owner, amount %d, details 0x10||cid", nf.Args, pn), where))
+			if len(nf.Args) != 4 || !Same(nf.Args[0], NX(owner.BytesBE())) || !Same(nf.Args[2], NI(pn)) {
+				vs = append(vs, Viol("fee-notification", fmt.Sprintf("TransferX %v; expected from the owner, amount %d", nf.Args, pn), where))
 				break
 			}
 		}
 	}
-	if cntX != d.N {
+	if pn > 0 && cntX != d.N {
 		vs = append(vs, Viol("fee-notification", fmt.Sprintf("%d TransferX notifications for %d Alphabet nodes", cntX, d.N), where))
+	}
+	// nothing is minted or burnt by a put, and nobody else is paid: the supply stays and the deltas above add up to zero
+	if sb, sa := w.Read(before.L, before.H, before.TS, bal, "totalSupply"), w.Read(after.L, after.H, after.TS, bal, "totalSupply"); !Same(sb.Ret0(), sa.Ret0()) {
+		vs = append(vs, Viol("supply-moved", fmt.Sprintf("totalSupply %v -> %v over a put", sb.Stack, sa.Stack), where))
 	}
 	return GridResult{Outcome: outcome, Nontrivial: T > 0, V: vs}
 }
